@@ -296,6 +296,24 @@ def r3(ctx, rep):
     cpl_finish_fold(ctx, rep, R3)
     n = common.finish_folds(ctx, rep, R3, 'C08.R3')
     rep.floor('C08.R3', 'finish pre-states', n, 500)
+    # identity completion of the classical family
+    R5 = rep.rule('C08.R5', 'classical family, finish() folded over every order of setting identity / predicate values: identity becomes an equivalence '
+                            'on the constants and every predicate extension is closed under replacing a constant by an identical one')
+    from .. import finishfold
+    from .c04 import designation_family
+    n = 0
+    for lg in ctx.lgs:
+        if designation_family(ctx, lg) != 'negation':
+            continue
+        res, cons = finishfold.fold_identity_completion(m, ctx.lgs, lg)
+        rep.consult(*cons)
+        for ok, label, kind, text in res:
+            n += 1
+            rep.instance(R5, ok=ok, nontrivial=(lg.name, label, kind))
+            if not ok:
+                rep.finding(R5, f'C08.R5/{lg.name}/{label}/{kind}', m.relfile('pytableaux.logics.cpl'), f'{lg.name}.Model.finish',
+                            f'{lg.name}, values set in the order [{label}]: {text}', logic=lg.name, scenario=label, kind=kind)
+    rep.floor('C08.R5', 'identity scenarios', n, 60)
 
 
 def cpl_finish_fold(ctx, rep, R3):
